@@ -12,7 +12,9 @@ uint64_t n_seen = 0;
 namespace sim {
 void budget_set(uint64_t edges) { limit = edges; }
 uint64_t budget_used() { return counter; }
-uint64_t edges_covered() { return n_seen; }
+static uint64_t child_max = 0;      // runs evaluated in forked children report their own count
+void note_child_edges(uint64_t n) { if (n > child_max) child_max = n; }
+uint64_t edges_covered() { return n_seen > child_max ? n_seen : child_max; }
 void budget_reset_counter() { counter = 0; }
 }
 extern "C" void __sanitizer_cov_trace_pc_guard_init(uint32_t *start, uint32_t *stop) {
